@@ -619,6 +619,17 @@ impl EliasFanoCursor<'_> {
 }
 
 /// Iterator adapter for EliasFano.
+/// Verification hook: read-only view of the private cursor state
+/// `(idx, high_pos, word_idx, remaining_bits)`.
+#[cfg(feature = "verif-hooks")]
+impl EliasFanoCursor<'_> {
+    #[doc(hidden)]
+    #[inline]
+    pub fn verif_state(&self) -> (usize, usize, usize, u64) {
+        (self.idx, self.high_pos, self.word_idx, self.remaining_bits)
+    }
+}
+
 impl<'a> IntoIterator for &'a EliasFano {
     type Item = u32;
     type IntoIter = EliasFanoIter<'a>;
